@@ -34,7 +34,8 @@ MALFORMED = ['abc', '2020/13/01', '2020/02/30', '2019/02/29', '2020/00/10', '202
              '2020/01/01 - 2020/01/05 - 2020/01/09', '   ', '2020/01/01 - ', ' - 2020/01/01',
              '2020/01/01 - abc', 'x/y/z', '2020/01/01 – 2020/01/02', '1900/02/29', '2100/02/29',
              '2021/04/31', '2020/06/31 - 2020/07/02', '2020/01/01 - 2020/02/30', '--', '2020/01/0a', '',
-             '2020/1_0/01', '2_020/01/01', '+2020/01/01', '2020/01/01 - 2020/01/0_5', '2020/01/+5', '20_20/1_2/3_1']
+             '2020/1_0/01', '2_020/01/01', '+2020/01/01', '2020/01/01 - 2020/01/0_5', '2020/01/+5', '20_20/1_2/3_1',
+             '2020/1 2/01', '2020/01/0 5', '20 20/01/05', '2020/01/05 - 2020/01/1 0', '2 020/01/05 - 2020/01/10']
 
 
 def n_cases(tier):
